@@ -154,5 +154,6 @@ Definition decode_with (lut : list entry) (input : N) : dres :=
 Definition decode (input : N) : dres := decode_with LUT input.
 
 Definition golay_encode24 (data : N) : N := encode24 data.
-Definition golay_decode (input : N) : option N :=
-  match decode input with DOk output => Some output | _ => None end.
+Definition dres_output (x : dres) : option N :=
+  match x with DOk output => Some output | _ => None end.
+Definition golay_decode (input : N) : option N := dres_output (decode input).
